@@ -162,9 +162,9 @@ static sqf::runtime::runtime::result execute_do(sqf::runtime::runtime& runtime, 
         auto instruction = frame.current();
         if (runtime.configuration().max_runtime != std::chrono::milliseconds::zero() &&
 #ifdef SQFVM_RUNTIME_VERIF
-            runtime.configuration().max_runtime + runtime.run_timestamp() < sqf::verif::now())
+            runtime.configuration().max_runtime < std::chrono::duration_cast<std::chrono::milliseconds>(sqf::verif::now() - runtime.run_timestamp()))
 #else
-            runtime.configuration().max_runtime + runtime.run_timestamp() < std::chrono::system_clock::now())
+            runtime.configuration().max_runtime < std::chrono::duration_cast<std::chrono::milliseconds>(std::chrono::system_clock::now() - runtime.run_timestamp()))
 #endif // SQFVM_RUNTIME_VERIF
         {
 #ifdef DF__SQF_RUNTIME__ASSEMBLY_DEBUG_ON_EXECUTE
@@ -333,6 +333,12 @@ sqf::runtime::runtime::result sqf::runtime::runtime::execute(sqf::runtime::runti
         {
             m_is_exit_requested = false;
             m_is_halt_requested = false;
+            // the maximum runtime applies to this step, not to the lifetime of the VM
+#ifdef SQFVM_RUNTIME_VERIF
+            m_run_timestamp = sqf::verif::now();
+#else
+            m_run_timestamp = std::chrono::system_clock::now();
+#endif // SQFVM_RUNTIME_VERIF
             skip_finished_contexts();
             if (m_contexts.empty())
             { // nothing is loaded: there is no scope to leave
@@ -350,6 +356,10 @@ sqf::runtime::runtime::result sqf::runtime::runtime::execute(sqf::runtime::runti
                 perform_evaluate();
                 if (res != result::ok)
                 {
+                    break;
+                }
+                if (m_context_active->suspended())
+                { // the script sleeps and only a run (action::start) wakes it: the step ends here instead of waiting forever
                     break;
                 }
                 if (m_context_active->frames_size() <= scopeNum)
@@ -449,9 +459,9 @@ sqf::runtime::runtime::result sqf::runtime::runtime::execute(sqf::runtime::runti
                             // so the maximum runtime has to be enforced here as well.
                             if (m_configuration.max_runtime != std::chrono::milliseconds::zero() &&
 #ifdef SQFVM_RUNTIME_VERIF
-                                m_configuration.max_runtime + m_run_timestamp < sqf::verif::now())
+                                m_configuration.max_runtime < std::chrono::duration_cast<std::chrono::milliseconds>(sqf::verif::now() - m_run_timestamp))
 #else
-                                m_configuration.max_runtime + m_run_timestamp < std::chrono::system_clock::now())
+                                m_configuration.max_runtime < std::chrono::duration_cast<std::chrono::milliseconds>(std::chrono::system_clock::now() - m_run_timestamp))
 #endif // SQFVM_RUNTIME_VERIF
                             {
                                 __logmsg(logmessage::runtime::MaximumRuntimeReached(
@@ -548,6 +558,12 @@ sqf::runtime::runtime::result sqf::runtime::runtime::execute(sqf::runtime::runti
         {
             m_is_exit_requested = false;
             m_is_halt_requested = false;
+            // the maximum runtime applies to this step, not to the lifetime of the VM
+#ifdef SQFVM_RUNTIME_VERIF
+            m_run_timestamp = sqf::verif::now();
+#else
+            m_run_timestamp = std::chrono::system_clock::now();
+#endif // SQFVM_RUNTIME_VERIF
             skip_finished_contexts();
             m_state = state::running;
             res = execute_do(*this, 1);
@@ -589,6 +605,12 @@ sqf::runtime::runtime::result sqf::runtime::runtime::execute(sqf::runtime::runti
         {
             m_is_exit_requested = false;
             m_is_halt_requested = false;
+            // the maximum runtime applies to this step, not to the lifetime of the VM
+#ifdef SQFVM_RUNTIME_VERIF
+            m_run_timestamp = sqf::verif::now();
+#else
+            m_run_timestamp = std::chrono::system_clock::now();
+#endif // SQFVM_RUNTIME_VERIF
             bool success;
             m_state = state::running;
             std::optional<diagnostics::diag_info> dinf;
@@ -616,6 +638,10 @@ sqf::runtime::runtime::result sqf::runtime::runtime::execute(sqf::runtime::runti
                 perform_evaluate();
                 if (res != result::ok)
                 {
+                    break;
+                }
+                if (m_context_active->suspended())
+                { // the script sleeps and only a run (action::start) wakes it: the step ends here instead of waiting forever
                     break;
                 }
                 if (dinf.has_value() && !m_context_active->empty())
